@@ -49,7 +49,7 @@ def c10(ctx: Ctx):
         ns += nf
         log("[gen] %d named feature x mutation cases + %d structured cases" % (n, ns))
         ctx.extra["generator"] = dict(named_cases=n, structured_cases=ns)
-        ctx.exhaustive = True
+        ctx.exhaustive = False      # the tier drives seeded slices (VERIF_SEED) next to its exhaustive core: not a complete enumeration of one finite space
     ctx.build_driver()
     logp = os.path.join(ctx.scratch, "log.ndjson")
     ctx.drive(cases, logp, shards=12, timeout=7200)
